@@ -1,0 +1,43 @@
+//go:build verif
+// +build verif
+
+package netpoll
+
+// Contracts for the vector helpers of sys_exec.go (gocv, contract-based deductive verification).
+// Comment-only file: compiled only with -tags verif and contains no code.
+
+// iovecs: one iovec per non-empty chunk, in order; every index stays inside ivs (the callers pass len(ivs) >= len(bs));
+// the total length described is at most MaxInt32 (iovsum[k] = bytes described by the first k entries, ghost).
+//@ ghost map iovsum int
+//@ ghost map iovsrc int
+//@ ghost map iovof int
+//   iovsrc[k]  index in bs of the chunk that entry k of ivs describes; iovof[j]  entry of ivs describing chunk j
+//@ func iovecs
+//@   property C04
+//@   requires len(ivs) >= len(bs)
+//@   ensures 0 <= iovLen && iovLen <= len(bs) && iovLen <= len(ivs)
+//@   ensures iovsum[0] == 0 && iovsum[iovLen] >= 0 && iovsum[iovLen] <= 2147483647
+//@   ensures forall k int {iovsum[k]} :: 0 <= k && k < iovLen ==> iovsum[k + 1] > iovsum[k]
+//@   ensures forall k int {iovsum[k]} :: 0 <= k && k < iovLen ==> ivs[k].Len == iovsum[k + 1] - iovsum[k]
+//@   note every entry describes (a prefix of) one non-empty chunk, entries follow the order of the chunks, only the last one may be cut short
+//@   ensures forall k int {iovsrc[k]} :: 0 <= k && k < iovLen ==> 0 <= iovsrc[k] && iovsrc[k] < len(bs) && ivs[k].Len >= 1 && ivs[k].Len <= len(bs[iovsrc[k]]) && iovof[iovsrc[k]] == k
+//@   ensures forall k int {iovsrc[k]} :: 0 <= k && k + 1 < iovLen ==> iovsrc[k] < iovsrc[k + 1] && ivs[k].Len == len(bs[iovsrc[k]])
+//@   ensures iovLen > 0 && iovsum[iovLen] < 2147483647 ==> ivs[iovLen - 1].Len == len(bs[iovsrc[iovLen - 1]])
+//@   note no non-empty chunk is skipped: up to the last described chunk (all of bs when the 2 GiB limit was not hit) every non-empty chunk has its entry
+//@   ensures forall j int {iovof[j]} :: 0 <= j && j < len(bs) && (iovsum[iovLen] < 2147483647 || (iovLen > 0 && j <= iovsrc[iovLen - 1])) && len(bs[j]) > 0 ==> 0 <= iovof[j] && iovof[j] < iovLen && iovsrc[iovof[j]] == j
+//@   modifies mem:syscall.Iovec, syscall.Iovec.Base, syscall.Iovec.Len, iovsum, iovsrc, iovof
+//@   ghost at entry: iovsum[0] = 0
+//@   ghost before call (*syscall.Iovec).SetLen#1: iovsum[iovLen + 1] = iovsum[iovLen] + arg1; iovsrc[iovLen] = i; iovof[i] = iovLen
+//@   ghost before call (*syscall.Iovec).SetLen#2: iovsum[iovLen + 1] = iovsum[iovLen] + arg1; iovsrc[iovLen] = i; iovof[i] = iovLen
+//@   loop 1 invariant 0 <= i && i <= len(bs) && 0 <= iovLen && iovLen <= i && 0 <= totalLen && totalLen < 2147483647 && iovsum[0] == 0 && iovsum[iovLen] == totalLen
+//@   loop 1 invariant forall k int {iovsum[k]} :: 0 <= k && k < iovLen ==> iovsum[k + 1] > iovsum[k] && ivs[k].Len == iovsum[k + 1] - iovsum[k]
+//@   loop 1 invariant forall k int {iovsrc[k]} :: 0 <= k && k < iovLen ==> 0 <= iovsrc[k] && iovsrc[k] < i && ivs[k].Len == len(bs[iovsrc[k]]) && ivs[k].Len >= 1 && iovof[iovsrc[k]] == k
+//@   loop 1 invariant forall k int {iovsrc[k]} :: 0 <= k && k + 1 < iovLen ==> iovsrc[k] < iovsrc[k + 1]
+//@   loop 1 invariant forall j int {iovof[j]} :: 0 <= j && j < i && len(bs[j]) > 0 ==> 0 <= iovof[j] && iovof[j] < iovLen && iovsrc[iovof[j]] == j
+
+//@ func resetIovecs
+//@   property C04
+//@   ensures forall k int :: 0 <= k && k < len(bs) ==> bs[k] == nil
+//@   modifies mem:[]byte, mem:syscall.Iovec, syscall.Iovec.Base
+//@   loop 1 invariant 0 <= i && i <= len(bs) && (forall k int :: 0 <= k && k < i ==> bs[k] == nil)
+//@   loop 2 invariant 0 <= i && i <= len(ivs) && (forall k int :: 0 <= k && k < len(bs) ==> bs[k] == nil)
